@@ -31,7 +31,20 @@ pub fn families(prop: &str, tier: Tier) -> Vec<Cfg> {
             b.max_conns = if q { 2 } else { 3 };
             b.dev = if q { 2 } else { 3 };
             b.max_reqs = 3;
-            vec![a, b]
+            // keep-alive traffic falling due while another packet is half written
+            let mut c = Cfg::base("C01-pingreq-due-during-partial-writes");
+            c.props = vec!["C01"];
+            c.keepalive = 10;
+            c.ops = vec![OpK::Pub1, OpK::Pub0, OpK::Poll, OpK::Drive, OpK::Sleep];
+            c.sleeps = vec![5_000];
+            c.io = IoMenu::partial();
+            c.io.all_partials_upto = 6;
+            c.cancel = true;
+            c.max_ops = if q { 5 } else { 6 };
+            c.max_conns = 1;
+            c.max_reqs = 2;
+            c.dev = 2;
+            vec![a, b, c]
         }
         "C02" => {
             // connection death at every I/O call, cancellation, ack orders, resumed reconnects
